@@ -11,11 +11,11 @@
    [conv] = Python's int()/float()/complex()/datetime.combine, assumed ([conv_ok]) to return an
    instance of exactly the class asked for.
 
-   On the current tree five call sites label values with a dtype those values do not honour
-   (findings NEW-C03-1..5): each has a [..._refuted] theorem with a concrete witness that was replayed
-   on the real code, the preservation theorem states the exact side condition under which the site is
-   sound, and the invariant over programs is proved for the programs that avoid those five inputs
-   ([reachable_truthful_partial]) and refuted at full strength ([reachable_truthful_refuted]). *)
+   The five call sites that used to label values with a dtype they did not honour (findings
+   NEW-C03-1..5: to_object, Vector.new, vector >> ragged table, copy(new_values), cast on a vector of
+   vectors) are repaired in /repo (fix commits F40-F44; /verif/regress/F40..F44.patch re-introduce
+   them); the model follows the repaired code, every preservation theorem is unconditional, and the
+   invariant over programs holds at full strength for EVERY program of the alphabet. *)
 From Coq Require Import List Bool Arith ZArith.
 From Serif Require Import Base.PyVal Base.StErr Spec.PySlice Spec.DtypeLattice Model.Dtype Model.Index
   Model.SetItem Spec.Truthful Model.Typed Proofs.Truthful.
@@ -93,27 +93,19 @@ Theorem C03_lshift_truthful : forall v o r, truthful v -> lshift v o = Ok r -> t
 Proof. exact lshift_truthful. Qed.
 Print Assumptions C03_lshift_truthful.
 
-(* v >> other: the table's columns / the ragged vector of vectors; a Table operand needs equal lengths *)
+(* v >> other (vector, table, iterable): the table's columns, or for operands of unequal length the
+   vector of vector objects, typed by inference *)
 Theorem C03_rshift_truthful : forall v o r,
-  truthful v -> operand_truthful o -> rshift v o = Ok r ->
-  (forall cs, o = OTab cs -> same_lengths (v :: cs) = true) -> rresult_truthful r.
+  truthful v -> operand_truthful o -> rshift v o = Ok r -> rresult_truthful r.
 Proof. exact rshift_truthful. Qed.
 Print Assumptions C03_rshift_truthful.
 
-Theorem C03_rshift_table_refuted : exists v cs r,
-  truthful v /\ Forall truthful cs /\ rshift v (OTab cs) = Ok (RVec r) /\ ~ truthful r.
-Proof. exact rshift_table_refuted. Qed.
-Print Assumptions C03_rshift_table_refuted.
-
 (* cast: (target, some-result-is-None) is honoured by the date / datetime interceptors and by target(x);
-   needs no hypothesis on the operand except that no element is itself a Vector *)
-Theorem C03_cast_truthful : forall t res v, has_vec_elt v = false -> truthful (cast t res v).
+   a callable target, and a vector of vectors (cast recursively), is typed by inference.  No hypothesis
+   on the operand at all. *)
+Theorem C03_cast_truthful : forall t res v, truthful (cast t res v).
 Proof. exact cast_truthful. Qed.
 Print Assumptions C03_cast_truthful.
-
-Theorem C03_cast_nested_refuted : exists v t res, truthful v /\ ~ truthful (cast t res v).
-Proof. exact cast_nested_refuted. Qed.
-Print Assumptions C03_cast_nested_refuted.
 
 Theorem C03_fillna_truthful : forall conv, conv_ok conv -> forall value v r,
   truthful v -> fillna conv value v = Ok r -> truthful r.
@@ -134,7 +126,8 @@ Theorem C03_fallback_truthful : forall n, truthful (fallback n).
 Proof. exact fallback_truthful. Qed.
 Print Assumptions C03_fallback_truthful.
 
-(* slices, masks, index lists, index vectors keep the dtype *)
+(* slices, masks, index lists, index vectors: keeping the dtype over a selection of own elements is sound
+   (the selection of Model/Index.v; the code builds it with self.copy(<selected>), see C03_copy_new_truthful) *)
 Theorem C03_getitem_truthful : forall v k r, truthful v -> getitem v k = Ok (GVec r) -> truthful r.
 Proof. exact getitem_truthful. Qed.
 Print Assumptions C03_getitem_truthful.
@@ -144,37 +137,26 @@ Theorem C03_sort_truthful : forall v idx r, truthful v -> take v idx = Ok r -> t
 Proof. exact take_truthful. Qed.
 Print Assumptions C03_sort_truthful.
 
-(* copy() and .T; copy(new_values) when the new values belong to the dtype *)
+(* copy() and .T keep the dtype over the same elements; copy(new_values) widens the declared dtype by
+   every new value, so it is truthful for ANY new values (and any receiver) *)
 Theorem C03_copy_truthful : forall v, truthful v -> truthful (copy v).
 Proof. exact copy_truthful. Qed.
 Print Assumptions C03_copy_truthful.
 
-Theorem C03_copy_new_truthful : forall v l nm,
-  truthful v -> (forall d, vdt v = Some d -> Forall (eb d) l) -> truthful (copy_new v l nm).
+Theorem C03_copy_new_truthful : forall v l nm, truthful (copy_new v l nm).
 Proof. exact copy_new_truthful. Qed.
 Print Assumptions C03_copy_new_truthful.
 
-Theorem C03_copy_new_refuted : exists v l nm, truthful v /\ ~ truthful (copy_new v l nm).
-Proof. exact copy_new_refuted. Qed.
-Print Assumptions C03_copy_new_refuted.
-
-(* to_object: sound only on vectors without None (DataType(object) is not nullable) *)
-Theorem C03_to_object_truthful : forall v, existsb el_none (vals v) = false -> truthful (to_object v).
+(* to_object: <object>, nullable exactly when a None is carried over *)
+Theorem C03_to_object_truthful : forall v, truthful (to_object v).
 Proof. exact to_object_truthful. Qed.
 Print Assumptions C03_to_object_truthful.
 
-Theorem C03_to_object_refuted : exists v, truthful v /\ ~ truthful (to_object v).
-Proof. exact to_object_refuted. Qed.
-Print Assumptions C03_to_object_refuted.
-
-(* Vector.new: sound except typesafe=True with a None element *)
-Theorem C03_new_truthful : forall x n ts r, ts && el_none x = false -> vector_new x n ts = Ok r -> truthful r.
+(* Vector.new(element, length, typesafe): typed by the element; typesafe drops nullability unless the
+   element is None *)
+Theorem C03_new_truthful : forall x n ts r, vector_new x n ts = Ok r -> truthful r.
 Proof. exact new_truthful. Qed.
 Print Assumptions C03_new_truthful.
-
-Theorem C03_new_refuted : exists x n ts r, vector_new x n ts = Ok r /\ ~ truthful r.
-Proof. exact new_refuted. Qed.
-Print Assumptions C03_new_refuted.
 
 (* tables: the columns kept by the constructors (copies), the row views, the rows of T *)
 Theorem C03_table_columns_truthful : forall cs r, Forall truthful cs -> table_of cs = Ok r -> Forall truthful r.
@@ -211,25 +193,16 @@ Print Assumptions C03_writeback_converse.
 
 (* one step of any program over the alphabet keeps a heap of truthful vectors truthful *)
 Theorem C03_step_truthful : forall conv, conv_ok conv -> forall h o,
-  Forall truthful h -> safe_op h o = true -> Forall truthful (fst (step conv h o)).
+  Forall truthful h -> Forall truthful (fst (step conv h o)).
 Proof. exact step_truthful. Qed.
 Print Assumptions C03_step_truthful.
 
-(* full strength: every vector reachable by any composition of the operations is truthful *)
-Definition C03_reachable_truthful_statement : Prop := reachable_truthful_statement.
-
-(* FALSE of the faithful model: Vector([1, None]).to_object() (NEW-C03-1) *)
-Theorem C03_reachable_truthful_refuted : ~ C03_reachable_truthful_statement.
-Proof. exact reachable_truthful_refuted. Qed.
-Print Assumptions C03_reachable_truthful_refuted.
-
-(* proved: for every program that avoids the five defective inputs ([safe_from], decided step by step
-   on the running heap) — by induction over the program, no bound on length or values.
-   Missing for the full statement: the five call sites of NEW-C03-1..5. *)
-Theorem C03_reachable_truthful_partial : forall conv, conv_ok conv -> forall ops,
-  safe_from conv [] ops = true -> Forall truthful (run conv ops).
-Proof. exact reachable_truthful_partial. Qed.
-Print Assumptions C03_reachable_truthful_partial.
+(* FULL STRENGTH: every vector reachable by any composition of the operations of the alphabet, applied to
+   vectors built by inference, is truthful — by induction over the program; no bound on its length, on the
+   lengths of the vectors or on the values, and no side condition on the program *)
+Theorem C03_reachable_truthful : forall conv, conv_ok conv -> forall ops, Forall truthful (run conv ops).
+Proof. exact reachable_truthful. Qed.
+Print Assumptions C03_reachable_truthful.
 
 (* ---- non-vacuity --------------------------------------------------------------------------------- *)
 
@@ -239,8 +212,8 @@ Lemma ex_conv_ok : conv_ok ex_conv.
 Proof. intros k [[vi p]|] y H; cbn in H; [inversion H; eauto|discriminate]. Qed.
 
 (* a program that promotes (int -> float by assignment), makes a vector nullable, concatenates across
-   kinds, casts datetimes to dates, fills, drops, sorts, stacks columns and takes a row view is safe,
-   so the theorem applies to it; its final heap is non-trivial *)
+   kinds, casts datetimes to dates, fills, drops, sorts, stacks columns and takes a row view is covered
+   by the theorem; its final heap is non-trivial *)
 Example C03_example_program :
   let i (n : Z) : elt := Some (mkV KInt true, n) in let f (n : Z) : elt := Some (mkV KFloat true, n) in
   let dt (n : Z) : elt := Some (mkV KDateTime true, n) in let s (n : Z) : elt := Some (mkV KStr true, n) in
@@ -255,12 +228,11 @@ Example C03_example_program :
                 OpTake 0 [2; 0; 1];                                 (* 6 *)
                 OpTable [0; 4];                                     (* 7, 8 *)
                 OpRow [7; 8] 1 ] in                                 (* 9 *)
-  safe_from ex_conv [] prog = true /\
   map (@vdt elt) (run ex_conv prog) =
     [ Some (mkD KFloat true); Some (mkD KDateTime true); Some (mkD KDate true); Some (mkD KObject true);
       Some (mkD KFloat false); Some (mkD KFloat false); Some (mkD KFloat true); Some (mkD KFloat true);
       Some (mkD KFloat false); Some (mkD KFloat true) ].
-Proof. vm_compute. split; reflexivity. Qed.
+Proof. vm_compute. reflexivity. Qed.
 
 (* write-back on a promoted, nullable vector: accepted, nothing changes *)
 Example C03_example_writeback :
